@@ -105,6 +105,8 @@ namespace XKoJen
     }
     void IConnection::PutIntoFragmentBuffer(const uint8* data, const uint32 count)
     {
+        if (count == 0) // nothing to copy: m_fragment_buffer[size()] below would be out of bounds
+            return;
 #if defined(__arm__)
         auto fragmentLast = m_fragment_buffer_cnt;
         m_fragment_buffer_cnt += count;
